@@ -5,6 +5,8 @@ CONSTANTS
   PatLens = {3, 4, 5, 6, 7, 8, 9, 10, 11, 12, 13, 14, 15, 16, 17, 18, 19, 20, 21, 22, 23, 24, 25, 26, 27, 28, 29, 30,
              31, 32, 33, 39, 40, 41, 63, 64, 65, 1499, 1522}
   AllPosUpTo = 16
-  Families = {"raw", "pat", "hdr", "echo4", "echo6", "pair6", "fold", "crit6"}
+  WideAcc = FALSE
+  LongMode = "quick"
+  Families = {"raw", "pat", "hdr", "echo4", "echo6", "pair6", "fold", "crit6", "long"}
 INVARIANTS Lemmas Export
 CHECK_DEADLOCK FALSE
